@@ -648,3 +648,29 @@ def c05(ctx, replay):
                             "error messages, the tree shape of equal-precedence binary chains (C13) and the grouping of unparenthesised "
                             "mixed and/or predicates are left open (operands of binary operations are parenthesised)",
                             "on/ignoring, label_replace, parser flags, ip() and the regexp stage are not generated"])
+
+
+@prop("C17")
+def c17(ctx, replay):
+    q = V.tla_str
+    mcs = [dict(name="fuzz", module="MC_Fuzz", consts=dict(MaxLen=T(ctx, 3, 4), AlphaSet=q(T(ctx, "quick", "full"))), invariants=["AlwaysAnOutcome"], timeout=5400)]
+
+    def nontrivial(scns):
+        # queries that got past the parser at least once (some evaluation code ran on the hostile data)
+        n = 0
+        for sid, lines in scns:
+            if any('"outcome":"ok"' in l for l in lines):
+                n += 1
+        return n
+    return std(ctx, "C17", mc=mcs, harness_cmd="fuzz", trace_module="Trace_Fuzz", nrand=T(ctx, 6000, 120000), replay=replay,
+               nontrivial=nontrivial, exhaustive=True, chunk_events=40000,
+               rule="step 1: Call -> Return(ok|err) two-state machine; TLC enumerates every byte string of <=3 symbols over 16 "
+                    "lexer/parser-relevant bytes incl. NUL and 0xFF (quick) / <=4 over 25 (thorough); each is evaluated by Engine.Eval "
+                    "(instant and positive step) against 33 hostile records (64-deep JSON, 200-deep arrays, every kind of truncation, 1e999, "
+                    "-0, 30-digit integers, lone surrogates, invalid UTF-8, empty, 64 KiB and 70 kB lines, malformed logfmt, bogus IPs) "
+                    "under recover() and a 15 s watchdog; random driver: valid queries of all generators (every stage kind and metric "
+                    "function meets the hostile data), their byte-level mutations, their forbidden mutations (must return an error), "
+                    "broken templates / patterns / JSON paths / regexes / ip() arguments, all unwrap conversions with extreme "
+                    "parameters; non-trivial = scenarios whose query was evaluated (returned ok at least once)",
+               assumptions=["'all byte strings' beyond the enumerated alphabet/length and the mutated grammar is not reachable by a model",
+                            "a hang is a call that does not return within 15 s"])
